@@ -9,6 +9,7 @@ import contextlib
 import io
 import itertools
 import json
+import math
 import pathlib
 import shutil
 import warnings
@@ -405,12 +406,52 @@ def write_stats_file(path, leaves, tree, st, genes):
                                                  for i in idx], dtype=np.int64))
 
 
+WELCH_ISSUES = []
+WELCH_CHECKED = [0]
+
+
+def welch_reference_check(s1, s2, name1, name2):
+    """The raw p-values are model inputs taken from the implementation; that they ARE Welch p-values
+    (statistic, Welch-Satterthwaite degrees of freedom, two-sided Student tail) is checked here against
+    an independent computation: exact rationals for t^2 and nu, scipy's Student CDF for the tail."""
+    from cell_type_mapper.utils.stats_utils import welch_t_test
+    import scipy.stats
+    n1, n2 = int(s1['n_cells']), int(s2['n_cells'])
+    if n1 < 2 or n2 < 2:
+        return
+    with quiet():
+        tt, nu, pv = welch_t_test(mean1=s1['mean'], var1=s1['var'], n1=n1, mean2=s2['mean'], var2=s2['var'], n2=n2,
+                                  boring_t=None, big_nu=None)
+    for g in range(len(tt)):
+        m1, m2, v1, v2 = (Fraction(float(x)) for x in (s1['mean'][g], s2['mean'][g], s1['var'][g], s2['var'][g]))
+        a, b = v1 / n1, v2 / n2
+        if a + b <= 0 or not np.isfinite(tt[g]) or not np.isfinite(nu[g]):
+            continue
+        WELCH_CHECKED[0] += 1
+        t2 = (m1 - m2) ** 2 / (a + b)
+        nu_ref = (a + b) ** 2 / (a * a / (n1 - 1) + b * b / (n2 - 1))
+        t_ref = math.copysign(math.sqrt(float(t2)), float(m1 - m2))
+        p_ref = 2.0 * scipy.stats.t.sf(abs(t_ref), float(nu_ref))
+        bad = []
+        if abs(float(tt[g]) - t_ref) > 1e-9 * max(1.0, abs(t_ref)):
+            bad.append(f't = {float(tt[g])!r}, Welch statistic {t_ref!r}')
+        if abs(float(nu[g]) - float(nu_ref)) > 1e-9 * float(nu_ref):
+            bad.append(f'nu = {float(nu[g])!r}, Welch-Satterthwaite degrees of freedom {float(nu_ref)!r}')
+        if abs(float(pv[g]) - p_ref) > 1e-7 * max(p_ref, 1e-300) and abs(float(pv[g]) - p_ref) > 1e-15:
+            bad.append(f'p = {float(pv[g])!r}, two-sided Student tail {p_ref!r}')
+        if bad and len(WELCH_ISSUES) < 5:
+            WELCH_ISSUES.append({'pair': [name1, name2], 'gene': g, 'n1': n1, 'n2': n2,
+                                 'mean1': float(m1), 'mean2': float(m2), 'var1': float(v1), 'var2': float(v2),
+                                 'problems': bad})
+
+
 def pair_inputs(cluster_stats, level, a, b, p_th):
     """what the workers compute for one pair up to the raw p-values and the scores: taken from the
     implementation's own routines (these numbers are model INPUTS)."""
     from cell_type_mapper.utils.stats_utils import welch_t_test, boring_t_from_p_value
     from cell_type_mapper.diff_exp.score_utils import pij_from_stats, q_score_from_pij
     s1, s2 = cluster_stats[f'{level}/{a}'], cluster_stats[f'{level}/{b}']
+    welch_reference_check(s1, s2, f'{level}/{a}', f'{level}/{b}')
     with quiet():
         _, _, p = welch_t_test(mean1=s1['mean'], var1=s1['var'], n1=s1['n_cells'], mean2=s2['mean'], var2=s2['var'],
                                n2=s2['n_cells'], boring_t=boring_t_from_p_value(p_th), big_nu=None)
@@ -1017,6 +1058,10 @@ def run(ctx):
     validity_mask_cases(ctx)
     sdg_cases(ctx)
     e2e_cases(ctx)
+    ctx.extra['welch_p_values_checked_against_reference'] = WELCH_CHECKED[0]
+    for w in WELCH_ISSUES:
+        w['class'] = 'c11-raw-p-value-is-not-the-welch-p-value'
+        ctx.violation('welch_t_test: ' + '; '.join(w['problems']), w)
 
 
 def replay(ctx, rec):
